@@ -297,6 +297,15 @@ func (r *rw) rewriteTime(af *ast.File) bool {
 						if b, isBasic := sl.Elem().Underlying().(*types.Basic); isBasic && b.Kind() == types.Uint8 {
 							if _, plain := t.(*types.Slice); plain {
 								call.Fun = &ast.SelectorExpr{X: ident("vsched"), Sel: ident("AppendBytes")}
+								if call.Ellipsis.IsValid() {
+									// append(b, s...) with a string s is a special form of the builtin only
+									last := len(call.Args) - 1
+									if lt := r.info.TypeOf(call.Args[last]); lt != nil {
+										if lb, isStr := lt.Underlying().(*types.Basic); isStr && lb.Info()&types.IsString != 0 {
+											call.Args[last] = &ast.CallExpr{Fun: &ast.ArrayType{Elt: ident("byte")}, Args: []ast.Expr{call.Args[last]}}
+										}
+									}
+								}
 								changedAny = true
 							}
 						}
